@@ -68,7 +68,7 @@ func c17Specs(tier string) []pagerSpec {
 
 func init() {
 	register(&Prop{
-		ID: "C17",
+		ID:   "C17",
 		Rule: "exhaustive enumeration of conventional pagers: N in 2..12 x k in 1..N (77 pairs) x 8 URL families (query ?page=, query with another numeric parameter, path /page/k, bare path /k, file suffix -k.html, _pk.html, and -k.html / _Pagek.html under a dated directory /2014/07/) on 4 rotating origins (http, https, another host, a port) x href form {absolute, root-relative, path-/query-relative} x page URL {without, with trailing slash for the two path families} x {3 separators x 3 current-page decorations for the page-number algorithm; 5 Next/Prev label pairs x {with, without numbered links} for the prev/next algorithm}; thorough additionally x 4 wrappers x {with, without surrounding article noise}. Expected links are computed by resolving the generated href against the page URL. Every grid cell is a distinct non-trivial case.",
 		Assumptions: []string{
 			"URLs are compared in canonical form (lower-case scheme/host, no trailing slash, raw query, fragment ignored)",
